@@ -387,6 +387,117 @@ From DA Require Import Prelude NDArray Array PyRT.
 Open Scope string_scope.
 '''
 
+# ---------------------------------------------------------------- the monotonicity cache of Axis (C05)
+# For each method of core/axes.py Axis that reads or writes `_monotonic`, the value of the cache of the axis the
+# method leaves behind (self for in-place methods, the returned Axis for __getitem__ / take) as an expression
+# over: c = the cache before (option bool), t = is_monotonic(values) of the axis at that point, sl = the index
+# is a slice.  Straight-line code and if / else only; anything else fails closed.
+CACHE_METHODS = ['__init__', 'values', 'sort', '__getitem__', '__setitem__', 'take', 'is_monotonic', 'copy']
+
+def cache_effect(f, setter=False):
+    def cond(e):
+        if isinstance(e, ast.BoolOp):
+            parts = [cond(v) for v in e.values]
+            if any(x is None for x in parts):
+                if any(isinstance(n, ast.Attribute) and n.attr == '_monotonic' for n in ast.walk(e)): fail(e, 'condition mixing _monotonic with something the cache model does not see')
+                return None
+            op = ' && ' if isinstance(e.op, ast.And) else ' || '
+            return '(' + op.join(parts) + ')'
+        if isinstance(e, ast.UnaryOp) and isinstance(e.op, ast.Not): return '(negb %s)' % cond(e.operand)
+        if isinstance(e, ast.Attribute) and e.attr == '_monotonic' and isinstance(e.value, ast.Name) and e.value.id == 'self':
+            return '(opt_truthy c)'
+        if isinstance(e, ast.Compare) and len(e.ops) == 1:
+            l, r = e.left, e.comparators[0]
+            if isinstance(l, ast.Attribute) and l.attr == '_monotonic' and isinstance(r, ast.Constant) and r.value is None:
+                if isinstance(e.ops[0], ast.Is): return '(opt_is_none c)'
+                if isinstance(e.ops[0], ast.IsNot): return '(negb (opt_is_none c))'
+            # type(item) is slice
+            if isinstance(e.ops[0], ast.Is) and isinstance(l, ast.Call) and getattr(l.func, 'id', None) == 'type' and isinstance(r, ast.Name) and r.id == 'slice':
+                return 'sl'
+        return None        # a condition that does not concern the cache
+    def rhs(e):
+        if isinstance(e, ast.Constant) and e.value is None: return 'None'
+        if isinstance(e, ast.Constant) and e.value is True: return '(Some true)'
+        if isinstance(e, ast.Constant) and e.value is False: return '(Some false)'
+        if isinstance(e, ast.Attribute) and e.attr == '_monotonic' and isinstance(e.value, ast.Name) and e.value.id == 'self': return 'c'
+        if isinstance(e, ast.Call) and getattr(e.func, 'id', None) == 'is_monotonic': return '(Some t)'
+        fail(e, 'value assigned to _monotonic')
+    def mentions(node):
+        return any(isinstance(n, ast.Attribute) and n.attr == '_monotonic' for n in ast.walk(node))
+    state = {'self': 'c'}            # cache expression per axis variable
+    result = ['self']
+    def run(body, st):
+        for stmt in body:
+            if isinstance(stmt, ast.Assign) and len(stmt.targets) == 1:
+                tg = stmt.targets[0]
+                if isinstance(tg, ast.Attribute) and tg.attr == '_monotonic' and isinstance(tg.value, ast.Name):
+                    st[tg.value.id] = rhs(stmt.value); continue
+                if isinstance(tg, ast.Name) and isinstance(stmt.value, ast.Call) and getattr(stmt.value.func, 'id', None) == 'Axis':
+                    st[tg.id] = 'None'; continue          # a new Axis object: __init__ leaves the cache empty
+                if mentions(stmt): fail(stmt, 'statement using _monotonic')
+                continue
+            if isinstance(stmt, ast.If):
+                c_ = cond(stmt.test)
+                if c_ is None:
+                    if mentions(stmt.test): fail(stmt, 'condition on _monotonic')
+                    a = dict(st); b = dict(st); ra = run(stmt.body, a); rb = run(stmt.orelse, b)
+                    if a != b or ra or rb:
+                        # branches that return early must leave the same cache picture, or not concern the cache at all
+                        if any(mentions(x) for x in stmt.body + stmt.orelse): fail(stmt, 'cache changed under a condition the model does not see')
+                    continue
+                a = dict(st); b = dict(st); run(stmt.body, a); run(stmt.orelse, b)
+                for k in set(a) | set(b):
+                    va, vb = a.get(k, st.get(k)), b.get(k, st.get(k))
+                    if va is None or vb is None: fail(stmt, 'axis variable defined in one branch only')
+                    st[k] = va if va == vb else '(if %s then %s else %s)' % (c_, va, vb)
+                continue
+            if isinstance(stmt, ast.Return):
+                v = stmt.value
+                if isinstance(v, ast.Name) and v.id in st: result[0] = v.id
+                elif isinstance(v, ast.Call) and getattr(v.func, 'id', None) == 'Axis': st['__ret'] = 'None'; result[0] = '__ret'
+                elif isinstance(v, ast.Call) and isinstance(v.func, ast.Attribute) and v.func.attr == 'deepcopy': st['__ret'] = 'c'; result[0] = '__ret'
+                elif isinstance(v, ast.Attribute) and v.attr == '_monotonic': pass      # is_monotonic returns the cache; the axis is self
+                elif mentions(stmt): fail(stmt, 'return using _monotonic')
+                return True
+            if isinstance(stmt, (ast.Expr, ast.Pass, ast.Raise, ast.AugAssign)):
+                if mentions(stmt): fail(stmt, 'statement using _monotonic')
+                continue
+            if mentions(stmt): fail(stmt, 'statement using _monotonic')
+        return False
+    run(f.body, state)
+    return state[result[0]]
+
+def translate_axis_cache():
+    path = os.path.join(REPO, 'dimarray/core/axes.py')
+    tree = ast.parse(open(path).read())
+    cls = [n for n in tree.body if isinstance(n, ast.ClassDef) and n.name == 'Axis']
+    if len(cls) != 1: raise Unsupported('class Axis not found')
+    methods = {}
+    for n in cls[0].body:
+        if isinstance(n, ast.FunctionDef):
+            if n.name == 'values':
+                if any(isinstance(d, ast.Attribute) and d.attr == 'setter' for d in n.decorator_list): methods['values_setter'] = n
+            elif n.name in CACHE_METHODS: methods[n.name] = n
+    want = ['__init__', 'values_setter', 'sort', '__getitem__', '__setitem__', 'take', 'is_monotonic', 'copy']
+    missing = [m for m in want if m not in methods]
+    if missing: raise Unsupported('Axis methods not found: %s' % missing)
+    # every other method of Axis must leave _monotonic alone
+    for n in cls[0].body:
+        if isinstance(n, ast.FunctionDef) and n not in methods.values():
+            for m in ast.walk(n):
+                if isinstance(m, ast.Attribute) and m.attr == '_monotonic' and isinstance(m.ctx, ast.Store):
+                    raise Unsupported('Axis.%s writes _monotonic: not in the cache model' % n.name)
+    out = ['(* GENERATED by harness/py2coq.py from dimarray/core/axes.py (class Axis) -- do not edit *)',
+           'From Coq Require Import Bool.',
+           'Definition opt_truthy (c : option bool) : bool := match c with Some true => true | _ => false end.',
+           'Definition opt_is_none (c : option bool) : bool := match c with None => true | _ => false end.',
+           '(* the cache of the axis a method leaves behind: c = cache before, t = is_monotonic(values), sl = the index is a slice *)']
+    names = {'__init__': 'init', 'values_setter': 'values_setter', 'sort': 'sort', '__getitem__': 'getitem', '__setitem__': 'setitem', 'take': 'take', 'is_monotonic': 'is_monotonic', 'copy': 'copy'}
+    for m in want:
+        e = cache_effect(methods[m])
+        out.append('Definition g_cache_%s (c : option bool) (t : bool) (sl : bool) : option bool := %s.' % (names[m], e))
+    return '\n'.join(out) + '\n'
+
 def main():
     ok = True
     os.makedirs(os.path.join(VERIF, 'coq', 'Gen'), exist_ok=True)
@@ -405,6 +516,16 @@ def main():
         old = open(target).read() if os.path.exists(target) else None
         if old != text:
             with open(target, 'w') as f: f.write(text)
+    target = os.path.join(VERIF, 'coq', 'Gen', 'axis_cache.v')
+    try:
+        text = translate_axis_cache()
+    except Unsupported as e:
+        sys.stderr.write('py2coq: axis_cache: UNSUPPORTED: %s\n' % e)
+        ok = False
+        text = '(* translation failed: %s *)\nDefinition translation_failed := tt.\n' % str(e).replace('*)', '* )')
+    old = open(target).read() if os.path.exists(target) else None
+    if old != text:
+        with open(target, 'w') as f: f.write(text)
     sys.exit(0 if ok else 1)
 
 if __name__ == '__main__':
